@@ -6,6 +6,11 @@ let mk_kf (keys : int array) : nat -> z =
 let str_ids (l : nat list) = String.concat "" (List.map (fun x -> " " ^ string_of_int (int_of_nat x)) l)
 let str_node ((k, v) : node) = Printf.sprintf "%d:%d" (int_of_nat k) (int_of_nat v)
 
+(* ids handed to a free callback: the non-NULL (non-zero) ones, in order *)
+let released (proj : node -> nat) (l : node list) =
+  String.concat "" (List.map (fun x -> " " ^ string_of_int x)
+                      (List.filter (fun x -> x <> 0) (List.map (fun n -> int_of_nat (proj n)) l)))
+
 let rec take n l = if n <= 0 then [] else match l with [] -> [] | x :: r -> x :: take (n - 1) r
 let dump (h : heap) =
   let sz = int_of_nat h.hsize in
@@ -30,6 +35,9 @@ let do_sort algo mode n keys =
   end
 
 let handle (lines : string list) : unit =
+  let dumps = ref true in
+  let dump_now = dump in
+  let dump h = if !dumps then dump_now h in
   let st : heap option ref = ref None in
   let kf = ref (fun (_ : nat) -> Z0) in
   let nkeys = ref 0 in
@@ -38,20 +46,28 @@ let handle (lines : string list) : unit =
     | "sorts" :: _ -> ()
     | "sort" :: algo :: mode :: n :: keys -> do_sort algo mode (int_of_string n) (ints keys)
     | "adv" :: _ -> print_endline "?"
+    | "cmp" :: _ -> ()          (* the model's order is the key order whatever magnitudes the comparator returns *)
+    | "dumps" :: w :: _ -> dumps := (w <> "off")
     | "heap" :: cap :: nk :: keys ->
       nkeys := int_of_string nk;
       kf := mk_kf (Array.of_list (0 :: ints keys));
       st := heap_init true (nat_of_int (int_of_string cap));
       (match !st with
-       | Some h -> print_endline "init 1"; dump h
+       | Some h -> print_endline "init 1"; dump_now h
        | None -> print_endline "init 0"; print_endline "heap -")
     | op :: args ->
       (match !st with
        | None -> print_endline "noheap"
        | Some h ->
          let alloc = not (List.mem "F" args) in
-         let args = List.filter (fun w -> w <> "F") args in
-         let a = match args with x :: _ -> int_of_string x | [] -> 0 in
+         (* last token of rem / remf: which free callbacks are passed (default both) *)
+         let cbk = not (List.mem "N" args || List.mem "V" args) in
+         let cbv = not (List.mem "N" args || List.mem "K" args) in
+         let clrmode = match args with m :: _ -> m | [] -> "" in
+         let args = List.filter (fun w -> not (List.mem w ["F"; "N"; "K"; "V"; "C"])) args in
+         let a = match args with
+           | x :: _ -> (match int_of_string_opt x with Some n -> n | None -> 0)   (* `clr N|C` has no number *)
+           | [] -> 0 in
          let b = match args with _ :: y :: _ -> int_of_string y | _ -> 0 in
          (match op with
           | "ins" ->
@@ -76,7 +92,7 @@ let handle (lines : string list) : unit =
             Printf.printf "find %d\n" (int_of_nat (heap_find !kf h (nat_of_int a)))
           | "rem" ->
             if a < 0 || a > int_of_nat h.hcap then print_endline "?" else
-            (match heap_remove !kf h (nat_of_int a) with
+            (match heap_remove_cb !kf cbk cbv h (nat_of_int a) with
              | None -> print_endline "FUEL"
              | Some (h', r) -> st := Some h';
                (match r with Some nd -> Printf.printf "rem 1 %s\n" (str_node nd) | None -> print_endline "rem 0");
@@ -85,13 +101,33 @@ let handle (lines : string list) : unit =
             if a < 1 || a > !nkeys then print_endline "?" else
             let idx = heap_find !kf h (nat_of_int a) in
             if int_of_nat idx = 0 then (print_endline "remf 0"; dump h) else
-            (match heap_remove !kf h idx with
+            (match heap_remove_cb !kf cbk cbv h idx with
              | None -> print_endline "FUEL"
              | Some (h', r) -> st := Some h';
                (match r with
                 | Some nd -> Printf.printf "remf %d 1 %s\n" (int_of_nat idx) (str_node nd)
                 | None -> Printf.printf "remf %d 0 0:0\n" (int_of_nat idx));
                dump h')
+          | "clr" ->
+            (match clrmode with
+             | "N" | "C" | "K" | "V" ->
+               (* which callbacks are passed; each sees the non-NULL keys / values, in slot order *)
+               let ck = (clrmode = "C" || clrmode = "K") and cv = (clrmode = "C" || clrmode = "V") in
+               let (h', freed) = heap_clear_cb ck cv h in
+               st := Some h';
+               Printf.printf "clr K%s V%s\n" (released fst freed) (released snd freed);
+               dump h'
+             | _ -> print_endline "?")
+          | "reinit" ->
+            if a < 0 then print_endline "?" else begin
+              let freed = heap_destroy h in
+              Printf.printf "reinit K%s V%s\n" (released fst freed) (released snd freed);
+              st := heap_init true (nat_of_int a);
+              (match !st with
+               | Some h' -> print_endline "init 1"; dump_now h'
+               | None -> print_endline "init 0"; print_endline "heap -")
+            end
+          | "dump" -> dump_now h
           | "drain" ->
             let rec go h acc =
               if int_of_nat h.hsize = 0 then (h, acc) else
